@@ -202,6 +202,55 @@ def gen_stream(rng, native):
     return rows, tables, kinds
 
 
+ROW_LADDER_QUICK = [64, 255, 256, 257, 1024, 1025, 2048, 4097, 8193]
+ROW_LADDER_FULL = [60, 63, 64, 65, 127, 128, 129, 255, 256, 257, 1000, 1023, 1024, 1025, 2047, 2048, 2049, 3072, 4095, 4096,
+                   4097, 8191, 8192, 8193, 20000]
+
+
+def ladder_stream(rng, n_row, native):
+    """a stream whose main table has n_row rows (numbers with missing values at the ends and around 255 / 1023, text,
+    booleans, timestamps), either orientation, after a metadata block and before a small table"""
+    miss = ["-", "nan", "NaN", " - "] if not native else [None, float("nan"), "-"]
+    hot = {0, n_row - 1, 254, 255, 256, 1023, 1024, n_row // 2}
+
+    def num(i):
+        if i in hot and rng.random() < 0.6 or rng.random() < 0.03:
+            return rng.choice(miss)
+        x = rng.choice([float(rng.randint(-999, 999)), round(rng.random() * 1000, 3), 1e16, 0.5])
+        return x if native else repr(x)
+    cols = [("n", rng.choice(["m", "kg", "-"]), [num(i) for i in range(n_row)])]
+    for nm in rng.sample(["s", "o", "d"], rng.randint(1, 2)):
+        if nm == "s":
+            cols.append(("s", "text", [rng.choice(["a", "é", "x y", "nan", "-"]) for _ in range(n_row)]))
+        elif nm == "o":
+            cols.append(("o", "onoff", [(rng.random() < 0.5) if native else rng.choice(["0", "1", "true", "FALSE"]) for _ in range(n_row)]))
+        else:
+            base = datetime.datetime(2020, 1, 1)
+            cols.append(("d", "datetime", [(base + datetime.timedelta(seconds=61 * i)) if native else
+                                           str(base + datetime.timedelta(seconds=61 * i)) for i in range(n_row)]))
+    rng.shuffle(cols)
+    if cols[0][0] == "s":                       # row-wise first column: never blank, never a marker — fine for "s" too
+        pass
+    transposed = rng.random() < 0.4
+    name = "ladder%d" % n_row
+    rows = [["author:", "x"], []]
+    start = len(rows)
+    if transposed:
+        grid = [["**" + name + "*"], ["all"]] + [[c[0], c[1]] + list(c[2]) for c in cols]
+    else:
+        grid = [["**" + name], ["all"], [c[0] for c in cols], [c[1] for c in cols]] + \
+               [[c[2][i] for c in cols] for i in range(n_row)]
+        for r in grid[4:]:
+            if starts_block(r[0]):
+                r[0] = "0" if cols[0][1] not in ("text",) else "a"
+    rows += grid
+    tables = [(start, len(grid), name, [c[1] for c in cols])]
+    rows += [[], ["**small"], ["a b"], ["x"], ["-"], ["1.5"]]
+    tables.append((len(rows) - 5, 5, "small", ["-"]))
+    kinds = ["ladder rows:%d" % n_row, "transposed" if transposed else "rowwise", "rows:%d" % n_row, "col:num"]
+    return rows, tables, kinds
+
+
 def gen_filter(rng, tables):
     """-> (python predicate, model spec) or (None, None)"""
     if rng.random() < 0.75:
@@ -641,7 +690,8 @@ def run(tier, seed, model_ok, translator, search=False):
                 "template rows, comments, late `key:` rows and blank lines with payload, with and without blank separators, "
                 "25 % with a read filter; 40 % with the reader's fixer argument given (a ParseFixer subclass or an instance of it, "
                 "strict_types False / True x stop_on_errors 0 / 1; the units must be those of the header rows); the three readers of a case are consumed one after the other (30 %), in lock-step (40 %) "
-                "or staggered (a reader started after k blocks of another, 30 %); each through parse_blocks (text / native cells), read_csv (StringIO; half of the texts "
+                "or staggered (a reader started after k blocks of another, 30 %); plus a row-count ladder (a table of 64 … 8193 rows "
+                "with missing numbers in every quick run, 60 … 20000 in thorough); each through parse_blocks (text / native cells), read_csv (StringIO; half of the texts "
                 "without a final newline) and read_excel (openpyxl workbook in a scratch dir; a third split into two "
                 "worksheets) x {pdtable, jsondata, cellgrid}; plus unknown output forms with a "
                 "recording iterator / stream. Non-trivial: at least one table with a column and a row; distinct by rows.")
@@ -652,10 +702,19 @@ def run(tier, seed, model_ok, translator, search=False):
     ops, pend = [], []
     tmp = tempfile.mkdtemp(prefix="c07-")
     try:
-        for i in range(n):
-            api = "read_excel" if i < n_x else ("read_csv" if i % 3 == 0 else "parse_blocks")
-            native = api == "read_excel" or (api == "parse_blocks" and rng.random() < 0.4)
-            rows, tables, kinds = gen_stream(rng, native)
+        ladder = ROW_LADDER_FULL if thorough else ROW_LADDER_QUICK
+        for i in range(n + len(ladder)):
+            if i < n:
+                api = "read_excel" if i < n_x else ("read_csv" if i % 3 == 0 else "parse_blocks")
+                native = api == "read_excel" or (api == "parse_blocks" and rng.random() < 0.4)
+                rows, tables, kinds = gen_stream(rng, native)
+            else:
+                # row-count ladder: a table of that many rows, always with missing numbers, next to a small one
+                n_row = ladder[i - n]
+                api = ["parse_blocks", "read_csv", "read_excel"][(i - n) % 3] if n_row <= 2100 else \
+                    ["parse_blocks", "read_csv"][(i - n) % 2]
+                native = api == "read_excel"
+                rows, tables, kinds = ladder_stream(rng, n_row, native)
             filt_py, filt_spec = gen_filter(rng, tables)
             plan = gen_plan(rng)
             fx = plan.get("fixer")
